@@ -73,6 +73,34 @@ _CLIENT_STATE_TRUSTED = [
 ]
 
 PROPS = dict(
+    C01=dict(
+        verus=['commitlog', 'tracker'], kani=['rumqttd'], native=['rumqttd'],
+        scope='components proved: commit log (a cursor that starts at the tail and follows continuations reads every later entry exactly once, in order: Verus), park/wake table (Verus + Kani), topic matching of the broker copy (bounded, C12 unit); router-level: exact delivery per subscription explored natively on the real Router (bounded stand-in)',
+        residual='whole-history liveness for arbitrary numbers of clients and schedules (link threads, tokio) is not decided; histories outside the explored space',
+        trusted_base=['Verus/Z3; Kani/CBMC; rustc as compiled; harness plays the link as link/local.rs does'],
+        assumptions=['BOUNDED stand-in at router level: Kani cannot compile a harness in which Router::new is reachable (compiler ICE, measured) and the handler bodies are outside the Verus subset'],
+    ),
+    C08=dict(
+        verus=['commitlog', 'window'], kani=[], native=['rumqttd'],
+        scope='components proved: commit log resume semantics (a rewound cursor re-reads exactly from there; a cursor into discarded data resumes at the oldest retained entry: Verus), window FIFO (Verus); router-level: session present / subscriptions kept / redelivery from the oldest unacknowledged message explored natively on the real Router (bounded stand-in)',
+        residual='reconnect histories outside the explored space; QoS 2 release replay across sessions; retention overflow while away',
+        trusted_base=['Verus/Z3; rustc as compiled'],
+        assumptions=['BOUNDED stand-in at router level: Kani cannot compile a harness in which Router::new is reachable (compiler ICE, measured) and the handler bodies are outside the Verus subset'],
+    ),
+    C15=dict(
+        verus=[], kani=[], native=['rumqttd'],
+        scope='retained-message rules explored natively on the real Router: latest per topic to a NEW non-shared subscription (flagged retained), cleared by empty payload, live copies not flagged, no replay on repeated or shared subscription',
+        residual='message-expiry of retained messages (Instant), delivery-window truncation with more than 100 retained messages, retain_forward_rule options',
+        trusted_base=['rustc as compiled'],
+        assumptions=['BOUNDED stand-in at router level: Kani cannot compile a harness in which Router::new is reachable (compiler ICE, measured) and the handler bodies are outside the Verus subset'],
+    ),
+    C17=dict(
+        verus=[], kani=[], native=['rumqttd'],
+        scope='shared subscriptions explored natively on the real Router: each message to at most one member, never to a non-member, never twice, per-member order, everything forwarded when the group stays non-empty and members acknowledge promptly; 3 strategies',
+        residual='the known parked-member stall (a member that does not consume) and arbitrary join/leave interleavings beyond one leave are outside the explored space',
+        trusted_base=['rustc as compiled; rand::thread_rng for the Random strategy (every outcome must satisfy the oracle)'],
+        assumptions=['BOUNDED stand-in at router level: Kani cannot compile a harness in which Router::new is reachable (compiler ICE, measured) and the handler bodies are outside the Verus subset'],
+    ),
     C04=dict(
         verus=[], kani=['rumqttc', 'rumqttd'], native=['rumqttd'],
         scope='remaining-length codec (write_remaining_length / length / len_len) PROVED complete by Kani for every len: usize in all four copies; every packet type of the broker codecs (v4, v5) round-tripped, and client<->broker interoperation in both directions (3.1.1: all packet types, byte-identical encodings; MQTT 5: PUBLISH with every subset of properties), over a generated finite value set (bounded stand-in)',
@@ -136,7 +164,7 @@ PROPS = dict(
         assumptions=['timing clauses of C18 are not covered'],
     ),
     C09=dict(
-        verus=['window', 'tracker'], kani=['rumqttd'],
+        verus=['window', 'tracker'], kani=['rumqttd'], native=['rumqttd'],
         scope='rumqttd Outgoing::{free_slots,register_ack,register_pubrec,register_pubcomp} under the window invariant WIN (ids consecutive in the 1..=100 cycle, <= 100 entries) incl. the lemma WIN => ids non-zero and pairwise distinct; Tracker::{try_ready,pause} wake-up table (IncomingAck resumes InflightFull/Caughtup)',
         residual='Outgoing::push_forwards (impl Iterator + parking_lot lock: outside Verus) and the call-site bound in forward_device_data (at most free_slots() items when qos != 0) are not under contract in this revision; unsolicited ack => that connection only and no-lost-wakeup across router turns are compositions in handle_device_payload/consume',
         assumptions=['stand-in declarations for parking_lot::Mutex, flume::Sender, Notification, DataRequest (held, never touched by the verified functions)'],
